@@ -9,7 +9,7 @@ import traceback
 
 from .tlc import MachineryError
 
-TM_PROPS = {"C01", "C02", "C04", "C05", "C06"}
+TM_PROPS = {"C01", "C02", "C04", "C05", "C06", "C19"}
 
 
 def dispatch(prop, tier, seed):
